@@ -1,24 +1,23 @@
-SPECIFICATION SpecAll
+SPECIFICATION Spec
 CONSTANTS
-  Cfg0 = 0
+  Cfg0 <- MCfg
   Types <- MTypes
-  MaxEv = 2
-  MaxAct = 5
+  MaxEv = 3
+  MaxAct = 3
   Budget = 2
-  NDrv = 1
+  NDrv = 2
   DrvBudget = 2
-  MaxDepth = 1
+  MaxDepth = 2
   QueueCap = 0
   HardLimit = 0
   WithErrors = FALSE
   WithIdle = FALSE
   WithSleep = FALSE
-  WithStop = FALSE
+  WithStop = TRUE
   TimeoutTypes = {}
-  KeepLog = TRUE
+  KeepLog = FALSE
 INVARIANT TypeOK
 INVARIANT LockOK
 INVARIANT NoUnexplainedWitness
 INVARIANT TerminalOK
-INVARIANT EmitBehaviour
 CHECK_DEADLOCK FALSE
